@@ -331,14 +331,18 @@ func engineC51(c *vctx) error {
 	}
 	good := c51HexOf([]byte("archive"))
 	// corpus: scanner token limit around bufio.MaxScanTokenSize, exact-name and first-match corners
-	for _, n := range []int{bufio.MaxScanTokenSize - 2, bufio.MaxScanTokenSize - 1, bufio.MaxScanTokenSize, bufio.MaxScanTokenSize + 1} {
+	for _, n := range []int{bufio.MaxScanTokenSize - 1, bufio.MaxScanTokenSize} {
 		long := strings.Repeat("x", n)
 		emitFind("find-longline", []byte(long+"\n"+good+"  "+archName+"\n"), archName, fmt.Sprintf("long(%d),good", n))
-		emitFind("find-longline", []byte(good+"  "+archName+"\n"+long), archName, fmt.Sprintf("good,long(%d) noeol", n))
+		if n == bufio.MaxScanTokenSize || c.thorough() {
+			emitFind("find-longline", []byte(good+"  "+archName+"\n"+long), archName, fmt.Sprintf("good,long(%d) noeol", n))
+		}
 		// the matching line itself is that long: "<hex>  <name>" padded in the hex field is invalid hex; pad the name instead
 		nm := archName + strings.Repeat("y", n-len(good)-2-len(archName))
 		emitFind("find-longline", []byte(good+"  "+nm), nm, fmt.Sprintf("matching line of %d bytes, noeol", n))
-		emitFind("find-longline", []byte(long+"\r\n"+good+"  "+archName+"\n"), archName, fmt.Sprintf("long(%d)+CR,good", n))
+		if n == bufio.MaxScanTokenSize-1 || c.thorough() {
+			emitFind("find-longline", []byte(long+"\r\n"+good+"  "+archName+"\n"), archName, fmt.Sprintf("long(%d)+CR,good", n))
+		}
 	}
 	for _, s := range []string{"", "\n", "\r\n", good + "  " + archName, good + "  " + archName + "\r", "\r" + good + "  " + archName + "\n",
 		good + "  " + archName + "\n" + c51HexOf([]byte("x")) + "  " + archName + "\n",
@@ -349,7 +353,7 @@ func engineC51(c *vctx) error {
 		emitFind("find-corpus", []byte(s), archName, fmt.Sprintf("%q", s))
 	}
 	emitFind("find-corpus", []byte(good+"  \n"), "", "empty file name")
-	nfind := c.n(500, 3000)
+	nfind := c.n(350, 2500)
 	for i := 0; i < nfind; i++ {
 		rng := c.rng.fork()
 		buf, label := c51GenSums(rng, archName, good, []string{"restic_9.9.9_linux_arm.bz2", "x" + archName})
@@ -377,7 +381,7 @@ func engineC51(c *vctx) error {
 		return out, true
 	}
 
-	nrun := c.n(420, 2000)
+	nrun := c.n(380, 1800)
 	for i := 0; i < nrun; i++ {
 		rng := c.rng.fork()
 		kindTags := []string{}
@@ -428,15 +432,32 @@ func engineC51(c *vctx) error {
 			sums, slabel = c51GenSums(rng, archName, listed, []string{"restic_9.9.9_linux_arm.bz2", "evil_" + suffix, "x" + archName})
 			tag("sums-gen")
 		}
-		if rng.chance(6) {
-			// a substituted archive whose hash is listed under a name that merely ends in / starts with the real name
+		if rng.chance(10) {
+			// a substituted archive whose hash is listed only in a line that must NOT count for the real name:
+			// similar name, three fields, shortened / empty hex
 			arch = archives[1]
-			evilLine := c51HexOf(arch) + "  x" + archName
-			if rng.bool() {
-				evilLine = c51HexOf(arch) + "  " + archName + ".sig"
+			h := c51HexOf(arch)
+			evilLine := ""
+			switch rng.intn(6) {
+			case 0:
+				evilLine = h + "  x" + archName
+			case 1:
+				evilLine = h + "  " + archName + ".sig"
+			case 2:
+				evilLine = h + "  " + archName + "  "
+			case 3:
+				evilLine = h + "  " + archName + "  extra"
+			case 4:
+				evilLine = h[:62] + "  " + archName
+			case 5:
+				evilLine = "  " + archName
 			}
-			sums, slabel = []byte(evilLine+"\n"+c51HexOf(archives[0])+"  "+archName+"\n"), "evil-under-similar-name,good"
-			kindTags = []string{"sums-similar-name-lists-substituted-archive"}
+			goodLine := c51HexOf(archives[0]) + "  " + archName
+			if rng.chance(30) {
+				goodLine = c51HexOf(archives[0]) + "  restic_9.9.9_linux_arm.bz2"
+			}
+			sums, slabel = []byte(evilLine+"\n"+goodLine+"\n"), "evil-in-non-counting-line,good"
+			kindTags = []string{"sums-noncounting-line-lists-substituted-archive"}
 		}
 		// signature
 		var sig []byte
